@@ -67,22 +67,38 @@ def run(ctx):
           "the writer emits exactly ids, authors, kinds, limit, since, until and #x" if okn else
           "writer member names %s differ from the parser's" % sorted(n_.decode("latin1") for n_ in names))
     escaping.writer_escapes(ctx, s, "pocket_types::Filter::as_json")
+    separator_protocol(ctx, s, w)
 
 
 def tag_bitmap(ctx, s, fn):
     an = ctx.E.an(fn)
-    k = [i for i, l in enumerate(fn.locals) if l.get("n") == "found_tags" and "inl" not in l]
-    from ..main import AnalysisError
-    if len(k) != 1:
-        raise AnalysisError("found_tags not found")
-    k = k[0]
-    ors = []
+    # the tag-letter bitmap: the local that is OR-ed with a value computed from the input (not a constant flag).
+    # Found by what is done to it, not by its name.
+    cand = {}
     for (b, i), L in an.stmt_loc.items():
-        if L == ("local", k):
-            v = an.stmt_val[(b, i)]
-            if v[0] == "bin" and v[1] == "BitOr":
-                ors.append((b, i, v))
-    ctx.floor("C07.found_tags-updates", len(ors), 1)
+        if L[0] != "local" or "inl" in fn.locals[L[1]]:
+            continue
+        v = an.stmt_val[(b, i)]
+        if v[0] == "bin" and v[1] == "BitOr" and v[2][0] != "const" and v[3][0] != "const" and \
+                contains_value(v, lambda y: y[0] == "phi" and y[2] == L):
+            cand.setdefault(L[1], []).append((b, i, v))
+    ctx.instances["C07.tag-bitmap-updates"] = sum(len(x) for x in cand.values())
+    if not cand:
+        s.add("S-ONEHOT", fn, "tag-letter-bitmap", "none", fn.sp, UNDECIDED,
+              "no bitmap of seen tag letters is maintained: repeated tag letters are not detected here (not decided)")
+        return
+    flags = [i for i, l in enumerate(fn.locals) if l.get("n") == "found" and "inl" not in l]
+    for k, ors_k in sorted(cand.items()):
+        if k in flags:
+            b, i, v = ors_k[0]
+            s.add("S-ONEHOT", fn, "tag-letter-bitmap", "shares-member-flags", fn.blocks[b]["stmts"][i]["sp"], VIOLATION,
+                  "the tag-letter bits are OR-ed into the same variable as the member flags: a tag letter and a member name "
+                  "that share a bit are mistaken for each other, so acceptance depends on which members are present", b)
+    cand = {k: v for k, v in cand.items() if k not in flags}
+    if not cand:
+        return
+    k = sorted(cand)[0]
+    ors = cand[k]
     from ..srules import leaf_values
 
     def one_hot(an_, v, depth=0):
@@ -186,6 +202,59 @@ def emission_order(ctx, s, fn):
     s.add("S-ORDER", fn, "layout-order-emission", "ids<authors<kinds<tags", fn.sp, PROVED if (ok and after) else VIOLATION,
           "after the member loop the arrays are written in layout order, whatever order the members were found in" if (ok and after) else
           "the arrays are not emitted in fixed layout order after the member loop: the binary form depends on member order")
+
+
+def separator_protocol(ctx, s, w):
+    """S-ORDER: the writer separates members with a 'nothing written yet' flag: a test of the flag (comma if something
+    was written) is followed, before the flag is tested again, by clearing the flag - otherwise two members can follow
+    each other without a comma (or the first one gets a comma).  The flag is found by its use: a boolean local whose
+    test leads straight to push(b',')."""
+    an = ctx.E.an(w)
+    cfg = an.cfg
+    tests = {}      # flag local -> [switch blocks testing it]
+    for b, info in an.term.items():
+        if info["kind"] != "switch" or info.get("dty") != "bool":
+            continue
+        D = info["discr"]
+        while D[0] == "not":
+            D = D[1]
+        if D[0] == "phi" and D[2][0] == "local":
+            L = D[2][1]
+        elif D[0] == "const":
+            continue
+        else:
+            continue
+        if "inl" in w.locals[L] and False:
+            continue
+        # one arm begins with push(',')
+        comma = False
+        for e in cfg.out_edges[b]:
+            ti = an.term.get(e.dst)
+            if ti and ti["kind"] == "call" and (ti["callee"] or "").endswith("::push") and len(ti["args"]) > 1 and \
+                    ti["args"][1] == ("const", 44, "u8"):
+                comma = True
+        if comma:
+            tests.setdefault(L, []).append(b)
+    for L, tb in sorted(tests.items()):
+        if len(tb) < 2:
+            continue
+        clears = [b for (b, i), loc in an.stmt_loc.items() if loc == ("local", L) and an.stmt_val[(b, i)] == ("const", 0, "bool")]
+        bad = []
+        for t in tb:
+            outs = [e.node for e in cfg.out_edges[t]]
+            reach = s.reach(w, outs, avoid=clears)
+            again = [x for x in tb if x in reach]
+            if again:
+                bad.append((t, again))
+        name = w.locals[L].get("n") or "_%d" % L
+        if bad:
+            t, again = bad[0]
+            s.add("S-ORDER", w, "separator-flag-cleared", name, w.blocks[t]["term"]["sp"], VIOLATION,
+                  "after this separator test a member is written and the flag can be tested again without having been cleared: "
+                  "two members then follow each other without a comma (the output is not valid JSON)", t)
+        else:
+            s.add("S-ORDER", w, "separator-flag-cleared", name, w.sp, PROVED,
+                  "%d separator tests: each is followed by clearing the flag before the flag is tested again" % len(tb))
 
 
 def _content_reads(ctx, v, buf):
